@@ -16,14 +16,16 @@ PROP = {
                   "Phrase matching (transliteration of phrase_scorer.rs incl. the carried-slop scan and the cost order of the terms): two-term phrases with any slop, "
                   "scoring on or off, are proved to match exactly the documented meaning (C03_phrase, two-pointer completeness on sorted position lists). "
                   "Order-preserving encodings i64/f64(non-NaN)/bool/date -> u64 (HIGHEST_BIT regenerated): a<b <-> enc a < enc b and range over encoded = range over values (C03_range_encoding). "
-                  "Known findings (stated as classes with refuted witnesses): F31 single-clause boolean ignores the minimum in scorer(); F32 phrase with >= 3 terms and slop. "
+                  "The one-clause shortcut of BooleanWeight::scorer() is pinned from the source (C03_SCORER_SINGLE_CLAUSE_CHECKS_MSM): under the current (fixed) shape the theorems hold for every tree "
+                  "without exclusion (the proofs re-run on the regenerated flag); the old shape is characterised by C03_boolean_sound_old_shape + witness C03_single_clause_msm_refuted (F31, fixed). "
+                  "Known finding: F32 phrase with >= 3 terms and slop (witness C03_phrase_slop3_refuted). "
                   "Partial: phrases with >= 3 terms are proved only through the witness/classifier (slop 0 with >= 3 terms is tied, not proved); docset iteration (advance/seek of union/intersection) is C13; block-max WAND pruning is C06; the automata are oracles.",
     "level_note": "Trusted: Coq kernel + vm_compute; pin.py; the harness (corpus/query generators, mapping of DocAddress to unique ids through a fast field); "
                   "leaf scorers are modelled by their posting lists (the theorem is parametric in any leaf scorer meeting the contract); tokenisation is C19 "
                   "(whitespace tokenizer over a generated vocabulary). No axioms (Print Assumptions: closed under the global context).",
     "technique": "Coq proof by structural induction over query trees + correspondence cases evaluated by vm_compute",
     "rule": "a case is one (corpus split into segments with deletes/merge, query tree) pair observed through Count, Query::count, DocSetCollector (scoring off and on), "
-            "TopDocs(limit >= num docs) and (DocSetCollector, TopDocs); non-trivial = tree depth >= 2 with >= 2 occur kinds and >= 1 matching and >= 1 non-matching live "
+            "TopDocs(limit >= num docs), (DocSetCollector, TopDocs) and FilterCollector; non-trivial = tree depth >= 2 with >= 2 occur kinds and >= 1 matching and >= 1 non-matching live "
             "document; distinct by hash of the Gallina case term",
     "trusted_base": COMMON_TB + ["fuzzy/regex/prefix acceptance is an oracle: the harness runs levenshtein_automata / tantivy_fst::Regex over the vocabulary and ships the accepted sets",
                                  "leaf scorers (postings, phrase scorer, range/term-set doc sets) are modelled by the set of documents they contain"],
